@@ -445,32 +445,87 @@ def minimise_model(dom, formulas, timeout_ms):
     return None
 
 
-def discharge(dom, name, hyps, goal, timeout_ms=10000, use_cvc5=True, kind="unbounded", extra=None):
-    """prove hyps => goal"""
-    t0 = time.time()
-    if goal is True:
-        return Result(name, "proved", 0.0, "trivial", kind=kind)
-    g = to_formula(goal)
-    hyps = [to_formula(h) for h in hyps]
+def _ite_conditions(dom, g, limit=4):
+    """conditions of if-then-else terms in the goal that only talk about indices (no sequence
+    functional inside): candidates for a case split"""
+    out = []
+    seen = set()
+    stack = [g]
+    while stack:
+        x = stack.pop()
+        i = x.get_id()
+        if i in seen:
+            continue
+        seen.add(i)
+        if z3.is_app_of(x, z3.Z3_OP_ITE):
+            c = x.children()[0]
+            if not find_apps(dom, [c]) and not any(c.eq(o) for o in out):
+                out.append(c)
+        stack.extend(x.children())
+    # innermost conditions first is irrelevant; keep the simplest (smallest) ones
+    out.sort(key=lambda c: len(str(c)))
+    return out[:limit]
+
+
+def _prove_core(dom, hyps, light, g, timeout_ms, use_cvc5):
+    """one attempt: congruence lemmas + rewriting + solver.  returns (status, backend, model, formulas, lemmas)"""
     lem = []
     backend = "z3"
     if dom.defs:
-        lem, rewrites = congruence_lemmas(dom, hyps, [g])
+        lem, rewrites = congruence_lemmas(dom, light, [g])
         if rewrites:
-            # apply the proved equalities as rewrites (chains: repeat until stable)
             for _ in range(4):
                 g2 = z3.substitute(g, *rewrites)
                 if g2.eq(g):
                     break
                 g = g2
             if z3.is_true(z3.simplify(g)):
-                return Result(name, "proved", time.time() - t0, "z3+congruence-rewriting", kind=kind)
+                return "unsat", "z3+congruence-rewriting", None, [], lem
+    # field identities (after rewriting) are decided by exact normal form, independently of solver load
+    from . import ringnf
+    if ringnf.identity(g) is True:
+        return "unsat", "ringnf(field identity)" + ("+congruence" if lem else ""), None, [], lem
     formulas = hyps + lem + [z3.Not(g)]
     r, m = dom.check(formulas, timeout_ms=timeout_ms)
     if r == "unknown" and use_cvc5:
         r2 = cvc5_check(formulas, timeout_ms)
         if r2 == "unsat":
             r, backend = "unsat", "cvc5"
+    return r, backend, m, formulas, lem
+
+
+def discharge(dom, name, hyps, goal, timeout_ms=10000, use_cvc5=True, kind="unbounded", extra=None, light_hyps=None):
+    """prove hyps => goal"""
+    t0 = time.time()
+    if goal is True:
+        return Result(name, "proved", 0.0, "trivial", kind=kind)
+    g = to_formula(goal)
+    hyps = [to_formula(h) for h in hyps]
+    light = [to_formula(h) for h in light_hyps] if light_hyps is not None else hyps
+    conds = _ite_conditions(dom, g) if dom.defs else []
+    r, backend, m, formulas, lem = _prove_core(dom, hyps, light, g, min(timeout_ms, 3000) if conds else timeout_ms,
+                                               use_cvc5 and not conds)
+    if r != "unsat" and dom.defs:
+        # case split on index conditions so that each case has syntactically comparable arguments
+        if conds:
+            import itertools
+            all_ok = True
+            worst = None
+            for vals in itertools.product([True, False], repeat=len(conds)):
+                ch = [c if v else z3.Not(c) for c, v in zip(conds, vals)]
+                if dom.quick_unsat(light + ch, timeout_ms=3000):
+                    continue        # infeasible case
+                gc = z3.simplify(z3.substitute(g, *[(c, z3.BoolVal(v)) for c, v in zip(conds, vals)]))
+                rc, bc, mc, fc, lc = _prove_core(dom, hyps + ch, light + ch, gc, timeout_ms, use_cvc5)
+                if rc != "unsat":
+                    all_ok = False
+                    worst = (rc, bc, mc, fc, lc)
+                    if rc == "sat":
+                        break
+            if all_ok:
+                return Result(name, "proved", time.time() - t0, "z3+case-split(%d)" % len(conds), kind=kind)
+            if worst is not None:
+                r, backend, m, formulas, lem = worst
     dt = time.time() - t0
     if r == "unsat":
         return Result(name, "proved", dt, backend, kind=kind)
